@@ -50,7 +50,7 @@ def run(prop, tier, seed, replay=None):
                 cases.append({"kind": "get", "server": sv, "off": off, "len": ln, "flen": fl})
         cases.append({"kind": "farfiles"})      # pieces on both sides of offset 2^32 of a torrent longer than 4 GiB
         HSERVERS = ["h-exact", "h-inclusive", "h-nolength-excess", "h-nolength-short", "h-short-length", "h-truncated", "h-overlong", "h-206", "h-503",
-                    "h-bad-length", "h-reset"]
+                    "h-bad-length", "h-reset", "h-whole-piece", "h-whole-torrent"]
         for sv in HSERVERS:
             for (off, ln, fl) in ((0, 16384, 200000), (65536 + 16384, 32768, 200000), (196608, 3392, 200000), (65536, 65536, 200000), (131072 + 100, 5000, 200000)):
                 cases.append({"kind": "hget", "server": sv, "off": off, "len": ln, "flen": fl})
